@@ -121,6 +121,8 @@ func genCLICases(w *caseWriter, bin string, rng *rand.Rand, st *pkgStats, tier s
 			{"out/other.deb", "file"}, {"out/other.rpm", "file"}, {"out/name.with.dots" + exts[format], "file"}, {"out/UPPER.DEB", "file"},
 			// a dollar sign is a character like any other in a file name (the variable is not set)
 			{"out/cost$VERIF_UNSET_VARIABLE" + exts[format], "file"}, {"out/${VERIF_UNSET_VARIABLE}x" + exts[format], "file"},
+			// the target is a symbolic link to the file that is to be (re)written: the package goes where the link points
+			{"out/latest" + exts[format], "link"},
 		}
 		for _, tc := range targets {
 			for _, flag := range []string{format, ""} {
@@ -131,6 +133,16 @@ func genCLICases(w *caseWriter, bin string, rng *rand.Rand, st *pkgStats, tier s
 				// the target already exists and is longer than the package: it is replaced, not written over
 				if tc.kind == "file" && flag == "" && format != "archlinux" && strings.HasSuffix(tc.target, exts[format]) {
 					must(os.WriteFile(filepath.Join(run, tc.target), bytes.Repeat([]byte("bytes of an older, longer file\n"), 40000), 0o644))
+				}
+				pointee := ""
+				if tc.kind == "link" {
+					if flag == "" && format == "archlinux" {
+						continue // no packager can be inferred from .zst: the command refuses, nothing to write through
+					}
+					pointee = filepath.Join("out", "pool", "real"+exts[format])
+					must(os.MkdirAll(filepath.Join(run, "out", "pool"), 0o755))
+					must(os.WriteFile(filepath.Join(run, pointee), []byte("the previous release\n"), 0o644))
+					must(os.Symlink(filepath.Join("pool", "real"+exts[format]), filepath.Join(run, tc.target)))
 				}
 				args := []string{"package", "-f", yamlPath}
 				if flag != "" {
@@ -154,7 +166,16 @@ func genCLICases(w *caseWriter, bin string, rng *rand.Rand, st *pkgStats, tier s
 				created := listFiles(run)
 				w.line("cli %d %s %s %s %s %d %d", n, xs(format), xs(flag), xs(tc.target), xs(conv), b2i(tc.kind == "dir"), code)
 				for _, f := range created {
-					w.line("clifile %s %s", xs(f), xs(magicOf(filepath.Join(run, f))))
+					if pointee != "" && f == pointee {
+						continue // judged through the link below
+					}
+					magic := magicOf(filepath.Join(run, f))
+					if pointee != "" && f == filepath.Clean(tc.target) {
+						if li, err := os.Lstat(filepath.Join(run, f)); err != nil || li.Mode()&os.ModeSymlink == 0 {
+							magic = "the-link-was-replaced-and-the-file-it-named-holds-" + magicOf(filepath.Join(run, pointee))
+						}
+					}
+					w.line("clifile %s %s", xs(f), xs(magic))
 				}
 				w.line("cliout %s", xs(outb.String()))
 				w.line("cliend")
